@@ -94,6 +94,24 @@ pub fn run(seed: u64, count: usize, model_sealed: &[(String, String, String)]) -
         reject("a sealed value opened for another version id".into(), sealed.clone(), C_SECRET, C_SALT, Uuid::from_u128(vid.as_u128() ^ 1));
         reject("a sealed value opened for the nil version id".into(), sealed.clone(), C_SECRET, C_SALT, Uuid::nil());
     }
+    // key separation: the same bytes split differently into salt and secret give unrelated keys
+    {
+        let all: Vec<u8> = b"0123456789abcdefXYZsecret-bytes".to_vec();
+        let splits = [14usize, 15, 16, 17, 18];
+        let crs: Vec<VerifCryptor> = splits.iter().map(|k| VerifCryptor::new(&all[*k..], &all[..*k]).expect("cryptor")).collect();
+        let vid = Uuid::from_u128(0x1234_5678_9abc_4def_8123_4567_89ab_cdef);
+        for (a, ca) in crs.iter().enumerate() {
+            let sealed = ca.seal(vid, b"MARKER-task-description and more".to_vec()).expect("seal");
+            for (b, cb) in crs.iter().enumerate() {
+                sweep += 1;
+                match (a == b, cb.unseal(vid, sealed.clone())) {
+                    (true, Ok(_)) | (false, Err(_)) => {}
+                    (true, Err(e)) => problems.push(format!("a value sealed under (salt of {} bytes, the rest as secret) does not open under the same pair: {e:#}", splits[a])),
+                    (false, Ok(_)) => problems.push(format!("a value sealed under a salt of {} bytes and the remaining bytes as secret opens under a salt of {} bytes and the remaining bytes as secret", splits[a], splits[b])),
+                }
+            }
+        }
+    }
     // values sealed by the model must open in the implementation
     let mut opened = 0;
     for (vid_hex, payload_hex, sealed_hex) in model_sealed {
